@@ -27,6 +27,7 @@ import SJ.Drv.C19Seq
 import SJ.Drv.C10Raw
 import SJ.Drv.C20Any
 import SJ.Drv.C04Sci
+import SJ.Drv.C02
 /-!
 `sjdriver` — reads case lines `op args… => impl-observation` on stdin, runs the Lean model and the
 executable specification on each, prints
@@ -67,6 +68,7 @@ def allHandlers : List (String × Handler) :=
     C19Seq.handlers,
     C10Raw.handlers,
     C20Any.handlers,
+    C02.handlers,
   ]
 
 def findHandler (op : String) : Option Handler := (allHandlers.find? (·.1 == op)).map (·.2)
